@@ -1,5 +1,6 @@
 import Sx.Model.FiltOps
 import Sx.Model.Emb
+import Sx.Model.MatRep
 
 /-! The heap layer: Python complex objects (handles), their representation identity and the attribute
 dict objects of their simplices as cells with identities, so that aliasing and independence (C08, C09) are
@@ -49,6 +50,7 @@ structure World where
   next  : Nat := 0                     -- next fresh identity (cells and representations)
   udict : List (String × Nat) := []    -- dict objects created by the script (`D3`)
   embs  : List (String × EObj) := []
+  reps  : List (String × MatRep.Rep) := []   -- raw representation objects (Layer R), driven by primitive calls only
 deriving Repr
 
 def World.obj? (w : World) (h : String) : Option Obj := (w.objs.find? (fun p => p.1 == h)).map (·.2)
